@@ -25,6 +25,7 @@ def declare(rep):
     rep.rule("C09.mother-untouched", "divide_cell writes to the mother only what cell::rebase writes", floor=1)
     rep.rule("C09.daughter-validated", "each daughter is returned only after initialize_cell_properties(true)", floor=2)
     rep.rule("C09.half-target-volume", "each daughter's target_volume_ is the mother's target_volume_ / 2", floor=2)
+    rep.rule("C09.stale-threshold", "in the divider no size of the mother's node/face list is kept across a call that may compact the list (rebase): the 'ids >= threshold are interface points' convention relies on it", floor=1)
     rep.rule("C09.same-type", "every concrete cell class overrides get_cell_same_type and constructs its own class", floor=5)
     rep.rule("C09.population-update", "cell_divider::run: success appends two cells + records one removal under critical, ids from the shared post-incremented counter, removal + renumbering after the loop, no unsynchronised access to the list being resized", floor=5)
 
@@ -32,6 +33,7 @@ def declare(rep):
 def run(rep, prog, tier):
     if not rep.rules:
         declare(rep)
+    stale_threshold(rep, prog)
     X = e2.Exceptions(prog, with_optional_value=True)
     fn = prog.fn("cell_divider::divide_cell")
     # (1)
@@ -246,3 +248,21 @@ def _same_block(fi, a, b):
     pa = [p for p, s, c in fi.ancestors(a)]
     pb = fi.parent.get(id(b), (None, None))[0]
     return pb in pa and fi.order[id(b)] > fi.order[id(a)]
+
+
+def stale_threshold(rep, prog):
+    from .. import lints
+    n = 0
+    for fn in prog.repo_functions():
+        if fn.get("cls") != "cell_divider" or not isinstance(fn.get("body"), dict):
+            continue
+        found = list(lints.stale_size_after_compaction(prog, fn))
+        sized = [v for v in prog.index(fn).nodes if v.get("k") == "Var" and isinstance(v.get("init"), dict) and lints.SIZE_OF_MESH.search(render(v["init"]).replace(" ", ""))]
+        for v, c, u in found:
+            rep.violation("C09.stale-threshold", prog, fn, v, "%s is stale after %s" % (v["name"], c.get("callee", "?").split("::")[-1]),
+                          "%s: '%s' is the size of the mother's list taken at line %s, but %s (line %s) may compact that list (cell::rebase) before the value is used again at line %s: ids >= the threshold no longer designate the interface points (out-of-range reads, wrong faces divided)" % (fn["qn"], v["name"], v.get("l"), c.get("callee"), c.get("l"), u.get("l")))
+        bad = {id(v) for v, _, _ in found}
+        for v in sized:
+            if id(v) not in bad:
+                n += 1
+                rep.ok("C09.stale-threshold", prog, fn, v, "%s = %s is not used after any call that may compact the list" % (v["name"], short(v["init"], 50)))
